@@ -287,7 +287,8 @@ def nid(name): return int(name[1:]) if name[0] == "n" else int(name[1:])
 def nname(i): return f"n{i}" if i < SHADOW else f"s{i}"
 
 
-def impl_build(case):
+def impl_build(case, peek=False):
+    """peek: the user reads every node's phase and info after each construction step (a correct implementation has no memory of being looked at)"""
     _, Probe = defs()
     from rex import constants as const
     nodes, ops = case
@@ -310,6 +311,9 @@ def impl_build(case):
         else:
             N[nname(o[1])].inputs[nname(o[2])].set_delay(delay_dist=None if o[3] is None else DO[o[3]],
                                                          delay=None if o[4] is None else o[4] * T)
+        if peek:
+            for n in N.values():
+                guarded(lambda: n.phase); guarded(lambda: n.info)
     return N
 
 
@@ -347,10 +351,10 @@ def impl_obs(N):
     return out, extra
 
 
-def impl_run(case):
+def impl_run(case, peek=False):
     """observation before the round trip, and after it when every info exists"""
     _, Probe = defs()
-    N = impl_build(case)
+    N = impl_build(case, peek)
     before, bex = impl_obs(N)
     if any(isinstance(v["info"], str) for v in before.values()):
         return dict(before=before, after=None), (bex, None)
@@ -586,10 +590,11 @@ def run(chk, replay=None):
     terms = [coq_case(c) for c in cfg_cases + eps_cases]
     model = [canon_model(m) for m in lib.coq_eval_sharded("C16", HEADER, "run", terms, per=100)] if terms else []
     timeouts = 0
-    for case, mo in zip(cfg_cases, model):
+    for idx, (case, mo) in enumerate(zip(cfg_cases, model)):
         if timeouts >= 3: break
+        peek = bool(idx % 2) or bool(replay)       # every other configuration is inspected (phase, info) after each construction step
         try:
-            impl, extra = with_timeout(20, lambda: impl_run(case))
+            impl, extra = with_timeout(20, lambda: impl_run(case, peek))
         except ImplTimeout:
             timeouts += 1
             chk.violation("cfg-differs:does-not-return", "building the configuration / reading phase and info / the info round trip "
@@ -602,8 +607,9 @@ def run(chk, replay=None):
         if any(v["phase"] == "LOOP" for v in mo[0]["before"].values()): f.append("algebraic-loop")
         if mo[0]["after"] is not None: f.append("info-roundtrip")
         if any(len({c["delay"] + 0 for c in v["inputs"].values()}) < len(v["inputs"]) for v in mo[0]["before"].values()): f.append("equal-delays-at-a-node")
+        if peek: f.append("inspected-while-building")
         chk.case(repr(case), f, dict(kind="config", nodes=repr(case[0])[:300], ops=repr(case[1])[:500]))
-        v = judge(chk, case, impl, mo)
+        v = judge(chk, case, impl, mo, tag="cfg(inspected)" if peek else "cfg")
         if v is not None and src_v is not None and impl != mo[VARIANTS.index(src_v)]:
             chk.broke("tie-vs-correspondence", f"the regenerated kernels say the source is variant {src_v}, the implementation "
                       f"behaves like variant {v} on {repr(case)[:300]}")
